@@ -32,8 +32,10 @@ CLAIMS = {
              "initialiser that allocated, kept and released blocks (even acquired chunks) before failing, every block live on entry and every "
              "kept block is still in a used part, pairwise disjoint, whether or not the rewind took place (inner_blocks_kept: the rewind is "
              "safe in general); on success nothing is rewound; the try-fill loop calls the closure for 0..=k and stops at the first error." + CORR +
-             " Partial: 'error value delivered exactly once' is checked by an oracle on the real crate (drop-counting error tokens), and the "
-             "slice try-fill reuse clause by the residue oracle (its Lean statement is not proved yet).",
+             " The same for a failed slice try-fill: the error is returned and the same layout is served again by the fast path at the "
+             "same address (fill_no_residue, for every element type whose alignment divides its size). Partial: 'error value delivered "
+             "exactly once' is a statement about a Rust value the model does not carry; it is checked by an oracle on the real crate "
+             "(drop-counting error tokens).",
         note=BASE_NOTE),
     "C12": dict(
         text="Theorems: for every live block and arbitrary old/new layouts (different alignments, zero sizes) grow and shrink return a block "
